@@ -86,6 +86,21 @@ var propSpecs = map[string]*PropSpec{
 		Technique: "contract-based deductive verification: (a) totality: every instruction of the replay loop, of tombstone application and of the read-side graph functions that can panic has a discharged safety obligation for EVERY event list; (b) determinism: every sort comparator that feeds output is proved a total order on the items it sorts (epics: defect repaired), map-derived slices are sorted; (c) read purity: list, show, where and prune without --yes are proved to call no write primitive (ghost log version and commit counter unchanged, no file creation except the lock file); ",
 		Assume: []string{"readEvents (line scanner, located parse errors) is an assumed contract until the storage layer is under contract; topoSortTasks/collectEpicChildren and the tree renderer are assumed pure; `promptly` (time bounds) is not expressible; append-only is carried by the assumed appendEvents contract (O_APPEND)"},
 	},
+	"C18": {
+		ID: "C18", Title: "Every command finds the same store, and init never hides data", Exclude: cat(txLabels, jsonLabels),
+		Funcs:     cat(lockFuncs, []string{"getEventsPath", "RunInit", "loadGraph"}, []string{"applyTombstone", "sortedKeys", "replayEvents"}),
+		Census:    "log-path",
+		Bounded:   []string{"resolveErgoDir"},
+		Technique: "contract-based deductive verification with a ghost file-presence set: getEventsPath returns plans.jsonl if present, else events.jsonl if present, else plans.jsonl (proved on the body over os.Stat's contract); init never switches an existing store to another log file and removes nothing; withLock creates at most the lock file; structural census: every log primitive in the package receives a path that flows from getEventsPath; bounded stand-in for the directory search",
+		Assume:    []string{"os.Stat succeeds exactly when the path exists (permission and I/O faults excluded); filepath.Join of a directory with two different plain file names yields different paths (trusted axiom)", "resolveErgoDir (nearest enclosing .ergo for every spelling of the start) is a BOUNDED stand-in: exhaustive over directory chains of depth <= 4 x all subsets of levels holding .ergo x 6 spellings; not counted as proved"},
+	},
+	"C20": {
+		ID: "C20", Title: "Result attachments are confined, faithful and never lost", Exclude: cat(txLabels, jsonLabels),
+		Funcs:     cat(lockFuncs, []string{"writeResultEvent$1", "writeResultEvent", "buildResultOutputItem", "buildResultOutputItems", "newEvent"}, replayFuncs),
+		Bounded:   []string{"validateResultPath"},
+		Technique: "contract-based deductive verification: the result section appends only for a live, unpruned, non-epic task and records exactly the cleaned path and the captured evidence; the replay loop prepends a result event's fields to the addressed live task and leaves every other task's results (length and elements) untouched for every event type; the output builder copies results in order; bounded stand-in for the lexical path confinement",
+		Assume:    []string{"captureResultEvidence (sha256 of the file content, mtime, git head) and deriveFileURL are assumed contracts; validateResultPath is a BOUNDED stand-in (all strings of length <= 6 over {./aergo} plus a curated list against a component-wise oracle on a real temp tree); re-emission order under compaction belongs to C05 (not yet claimed)"},
+	},
 	"C14": {
 		ID: "C14", Exclude: cat(txLabels, jsonLabels), Title: "Every task's epic reference names a live epic",
 		Funcs:     cat([]string{"createTaskWithDir$1", "applySetUpdates$1", "buildSetEvents", "selectPruneTargets", "newEvent"}, replayFuncs),
